@@ -149,11 +149,19 @@ impl Model<Protobuf> {
                 let fields = match ordering {
                     EncodingOrdering::Keep => &fields[..],
                     EncodingOrdering::Sort => {
-                        sorted = AsnDefWriter::sort_fields_canonically(
-                            &AsnDefWriter::assign_implicit_tags(fields),
-                            *extension_after,
-                        );
-                        &sorted[..]
+                        let tagged = AsnDefWriter::assign_implicit_tags(fields);
+                        // the tag of a type that refers to itself without a tag in between cannot be
+                        // determined: such a SET cannot be sorted (nor compiled), keep its order
+                        if tagged
+                            .iter()
+                            .all(|f| f.tag.or_else(|| f.r#type().tag()).is_some())
+                        {
+                            sorted =
+                                AsnDefWriter::sort_fields_canonically(&tagged, *extension_after);
+                            &sorted[..]
+                        } else {
+                            &fields[..]
+                        }
                     }
                 };
                 let mut proto_fields = Vec::with_capacity(fields.len());
